@@ -78,6 +78,9 @@ class EachOf:
     def sym_iter(self, ev, n, mod):
         return ev.iterate(self.seq.elem, n, mod)
 
+    def sym_subscript(self, ev, idx, n, mod):
+        return ev.subscript(self.seq.elem, idx, n, mod)       # record[k] of every element: field k, elementwise
+
 
 class FirstOf:
     """seq[k] for constant k: fields are Indexed(field vector, k)"""
